@@ -78,7 +78,7 @@ WAIT_S = 5.0
 
 def plan(tier, seed):
   if tier == 'quick':
-    n_scen, chunks = 288, 24
+    n_scen, chunks = 432, 24
   else:
     n_scen, chunks = 9216, 64
   per = n_scen // chunks
